@@ -364,6 +364,7 @@ def run(ctx):
     once_rule(ctx, syn)
     from props.c01 import expand_rule
     expand_rule(ctx, syn, rid="C17.EXPAND")   # to_webannotation walks targets through this expansion
+    prefix_rule(ctx)
 
     # ---------------- SEP (separator / bracket typestate on the string accumulators)
     r_sep = ctx.rule("C17.SEP", "on every path through the exporter, members and elements are separated by exactly one comma, brackets are balanced and every function returns a complete JSON value (or member list)")
@@ -599,3 +600,36 @@ def escaper_eval(ctx, r_esc, fn):
             ctx.report(r_esc, "escaper-wrong", "json_escape(%s) gives %s: between the quotes the caller adds this is not a JSON string literal that reads back as the input (a quote or backslash at the edge of the text is lost or left dangling), so the exported Web Annotation is not valid JSON" % (_json.dumps(smp), _json.dumps(got) if isinstance(got, str) else repr(got)), fn.file, fn.line, {"input": smp, "got": got if isinstance(got, str) else repr(got)})
             return
     r_esc.hit("escaper-evaluated", sample={"samples": n})
+
+
+# ---------------------------------------------------------------------- PREFIX
+PREFIX_KIND = {"dataset": "default_set_iri", "resource": "default_resource_iri", "annotation": "default_annotation_iri"}
+
+
+def prefix_rule(ctx, rid="C17.PREFIX"):
+    """identifiers without a scheme are turned into IRIs with a configurable prefix per kind of item.  The same item
+    has to get the same IRI wherever it is named (a dataset in the target and in the body keys), so the prefix handed to
+    into_iri must be the one for the kind of item whose id is being converted.  Type-directed: the item is recognised by
+    the store accessor its id derives from (MIR provenance), the prefix by the config field."""
+    import mirq
+    r = ctx.rule(rid, "every into_iri(id, &config.default_X_iri) in the exporter converts the id of an item of kind X (dataset ids with default_set_iri, resource ids with default_resource_iri, annotation ids with default_annotation_iri)")
+    prog = mirq.Program(ctx.facts.mir())
+    n = 0
+    for bid, b in sorted(prog.bodies.items()):
+        if "webanno" not in bid or b.d.get("derived"):
+            continue
+        for bi, t in b.calls():
+            if not (mirq.callee_of(t)[0] or "").endswith("webanno::into_iri") or len(t.get("args", [])) != 2:
+                continue
+            pre = str(b.key_of_operand(t["args"][1]))
+            m = re.search(r"config\.(default_\w+_iri)", pre)
+            if not m:
+                continue
+            prov = b.provenance(t["args"][0])
+            kinds = sorted(k for k in PREFIX_KIND if any(re.search(r"AnnotationStore>::%s$" % k, p_) for p_ in prov))
+            n += 1
+            r.hit("%s:%s" % (mirq.short_fn(bid), t.get("line")), sample={"function": mirq.short_fn(bid), "prefix": m.group(1), "id_of": kinds or ["(generated / annotation id)"]})
+            for k in kinds:
+                if PREFIX_KIND[k] != m.group(1):
+                    ctx.report(r, "%s|%s-id-with-%s" % (mirq.short_fn(bid), k, m.group(1)), "%s turns the id of a %s into an IRI with config.%s: the same %s is named under %s elsewhere in the export (its keys in the body), so one item gets two different IRIs" % (mirq.short_fn(bid), k, m.group(1), k, PREFIX_KIND[k]), b.file, t.get("line"))
+    ctx.floor(r, n, 5, "into_iri calls with a configured prefix")
